@@ -51,7 +51,7 @@ fn scenarios(which: Which, u: &Universe, arch: &Arch, n: usize) -> Vec<Scenario>
         // x every seed of <= 2 letters (the order in which the two kinds of seed are consumed matters)
         for p in seqs(letters.len(), 2) {
             for s in seqs(letters.len(), 2) {
-                if p.is_empty() || s.is_empty() || (p.len() == 2 && s.len() == 2 && (p[0] + s[1]) % 3 != 0) {
+                if p.is_empty() || s.is_empty() || (p.len() == 2 && s.len() == 2 && (p[0] + 2 * p[1] + s[0] + s[1]) % 6 != 0) {
                     continue; // 2x2-letter combinations: a deterministic third
                 }
                 v.push(mk(Some(u.concat(&letters, &p)), true, vec![u.concat(&letters, &s)]));
@@ -76,7 +76,8 @@ pub fn run(rep: &mut Report, which: Which, block_dev: bool) {
     let thorough = rep.thorough();
     let lab = Lab::new(false);
     let n = if thorough { 3 } else { 2 };
-    let hls: &[usize] = if thorough && !block_dev { &[64, 4] } else if block_dev { &[64] } else { &[64, 4] };
+    // truncated hash lengths are swept by the library legs; the CLI legs take both only where cheap
+    let hls: &[usize] = if block_dev || (which == Which::C02 && !thorough) { &[64] } else { &[64, 4] };
     let sh = shards(&lab, if thorough { 3 } else { 2 }, hls);
     if block_dev {
         std::env::set_var("BITA_VERIF_BLOCKDEV", "1");
